@@ -267,6 +267,7 @@ func analyse(repo, tier string, props []string, ruleList string) (*runResult, in
 			fmt.Fprintf(os.Stderr, "ergocheck: cannot analyse %s [%s]: %v\n", repo, cfg.Name, err)
 			return nil, 2
 		}
+		curProg = prog
 		facts, ferr := computeFacts(prog)
 		if ferr != nil {
 			fmt.Fprintf(os.Stderr, "ergocheck: fact extraction failed [%s]: %v\n", cfg.Name, ferr)
